@@ -127,6 +127,51 @@ def _samearg_full_drop(call: ast.Call, name: str) -> bool:
     return False
 
 
+
+def confined_root_obligations(ctx, rep, rule):
+    """The document root is rewritten (to '/', for the chroot jail) only on start-up paths on which the chroot call has
+    succeeded: os.chroot is made to fail (PermissionError) at every call site and the paths that survive are followed."""
+    prog = ctx.prog
+    eff = Effects(prog, ctx.resolver)
+    droppers = _droppers(ctx, eff)
+    n = 0
+    for dropper in droppers:
+        def rp(node, target):
+            return ["PermissionError"] if target is not None and target.kind == "ext" and target.ext == "os.chroot" else []
+
+        w = Walker(prog, ctx.resolver, expr_value=_expr_value, raise_points=rp,
+                   inline=lambda fn, t, d: d < 3 and fn.module.name.startswith("pygopherd.") and fn.cls is None and fn is not dropper
+                   and bool({"PRIV"} & eff.summary(fn)))
+        try:
+            paths = w.run(dropper)
+        except Exception:
+            rep.add(rule, f"{dropper.qualname}: document root rewritten only inside the jail", False, ctx.where(dropper),
+                    "the paths of the privilege dropper could not be enumerated", key=f"{rule}|{dropper.qualname}")
+            continue
+        bad = None
+        sets = 0
+        for p in paths:
+            if p.kind == "raise":
+                continue
+            failed = {id(e.node) for e in p.events if e.kind == "raise" and e.extra == "implicit"}
+            jailed = False
+            for ev in p.events:
+                k = _classify(ctx, ev)
+                if k == "CHROOT" and id(ev.node) not in failed:
+                    jailed = True
+                elif k == "ROOTSET":
+                    sets += 1
+                    if not jailed and bad is None:
+                        bad = ev
+        if sets or any(_classify(ctx, e) == "CHROOT" for p in paths for e in p.events):
+            n += 1
+            rep.add(rule, f"{dropper.qualname}: document root rewritten to '/' only after a chroot that succeeded", bad is None,
+                    ctx.where(dropper, bad.node) if bad is not None else ctx.where(dropper),
+                    "" if bad is None else f"`{norm(bad.node)[:60]}` is reached on a path where os.chroot has failed (or was not called): the server then "
+                    "serves the whole file system as its document root", key=f"{rule}|{dropper.qualname}")
+    if not n:
+        rep.ok(rule, "no start-up function rewrites the document root", "pygopherd/initialization.py", "", key=f"{rule}|none", nontrivial=False)
+
 from .c20 import with_swallows
 
 
@@ -138,6 +183,9 @@ def check(ctx, rep):
     rep.rule("R19b", "all feasible paths of the privilege dropper: chroot < root:='/' & chdir into root < "
              "setgroups(()) < set*gid < set*uid; complete drops only; configured option => drop performed", floor=4)
     rep.rule("R19c", "no privileged call, bind or key load inside a try/suppress whose handler can complete normally", floor=3)
+    rep.rule("R19d", "= R01n: the document root is rewritten to '/' only on paths on which chroot has succeeded (chroot made to fail at every "
+             "call site, surviving paths followed)", floor=1)
+    confined_root_obligations(ctx, rep, "R19d")
     rep.assume("os.* privileged calls raise OSError on failure; socketserver binds in the server constructor")
     rep.assume("pwd.getpwnam/grp.getgrnam never return None fields")
 
